@@ -74,9 +74,20 @@ structure App where
   respond : Option Parsed → Parsed → Bytes       -- router.handle + send: may look at the residue (it must not matter)
   reject : Nat → Bytes                           -- the error response of a refused request
 
+/-- `str::trim` on ASCII text: blanks, tabs and line ends off both ends -/
+def isWs (b : UInt8) : Bool := b == 32 || b == 9 || b == 10 || b == 13 || b == 12 || b == 11
+def trimAscii (v : Bytes) : Bytes := ((v.dropWhile isWs).reverse.dropWhile isWs).reverse
+def lowerAscii (b : UInt8) : UInt8 := if 65 ≤ b && b ≤ 90 then b + 32 else b
+def splitOnComma : Bytes → List Bytes
+  | [] => [[]]
+  | b :: t => match splitOnComma t with
+    | [] => [[b]]          -- (not reached)
+    | hd :: tl => if b == 44 then [] :: hd :: tl else (b :: hd) :: tl
+
+/-- the request asks to end the connection: `Connection` is a list of case-insensitive options (RFC 9110 7.6.1) and one of them is `close` -/
 def wantsClose (p : Parsed) : Bool :=
   match getStd p ((Gen.reqHeaderNames.map (·.1)).idxOf "Connection") with
-  | some v => v == [99, 108, 111, 115, 101] || v == [67, 108, 111, 115, 101]      -- "close" | "Close"
+  | some v => (splitOnComma v).any fun o => (trimAscii o).map lowerAscii == [99, 108, 111, 115, 101]      -- "close"
   | none => false
 
 /-- the loop; returns the responses written, in order, and how the session ended -/
